@@ -58,9 +58,19 @@ where
 
 /// `on_yield` is called with the connection id at the instant the incoming stream hands that
 /// connection to the server's accept loop (used to place a fault exactly there).
-pub fn spawn_server_hooked<S>(handler: &Handler, comp: &CompCfg, opts: &ServerOpts, rx: UnboundedReceiver<SimStream>, shutdown: Option<S>, mut on_yield: Option<Box<dyn FnMut(usize) + Send>>) -> tokio::task::JoinHandle<Result<(), tonic::transport::Error>>
+pub fn spawn_server_hooked<S>(handler: &Handler, comp: &CompCfg, opts: &ServerOpts, rx: UnboundedReceiver<SimStream>, shutdown: Option<S>, on_yield: Option<Box<dyn FnMut(usize) + Send>>) -> tokio::task::JoinHandle<Result<(), tonic::transport::Error>>
 where
     S: Future<Output = ()> + Send + 'static,
+{
+    let incoming = tokio_stream::wrappers::UnboundedReceiverStream::new(rx).map(Ok::<_, std::io::Error>);
+    spawn_server_incoming(handler, comp, opts, incoming, shutdown, on_yield)
+}
+
+/// The most general form: any incoming stream (it may yield accept errors and may end).
+pub fn spawn_server_incoming<S, I>(handler: &Handler, comp: &CompCfg, opts: &ServerOpts, incoming: I, shutdown: Option<S>, mut on_yield: Option<Box<dyn FnMut(usize) + Send>>) -> tokio::task::JoinHandle<Result<(), tonic::transport::Error>>
+where
+    S: Future<Output = ()> + Send + 'static,
+    I: tokio_stream::Stream<Item = Result<SimStream, std::io::Error>> + Send + 'static,
 {
     let raw = crate::c02::configure!(crate::rawsvc::raw_server::RawServer::new(handler.clone()), comp, server);
     let echo = crate::c02::configure!(crate::pb::echo_server::EchoServer::new(handler.clone()), comp, server);
@@ -82,11 +92,11 @@ where
         b = b.concurrency_limit_per_connection(c);
     }
     let router = b.add_service(raw).add_service(echo).add_service(bare);
-    let incoming = tokio_stream::wrappers::UnboundedReceiverStream::new(rx).map(move |io| {
-        if let Some(f) = on_yield.as_mut() {
+    let incoming = incoming.map(move |io| {
+        if let (Some(f), Ok(io)) = (on_yield.as_mut(), &io) {
             f(io.conn_id());
         }
-        Ok::<_, std::io::Error>(io)
+        io
     });
     tokio::spawn(async move {
         match shutdown {
@@ -128,8 +138,12 @@ pub fn net_and_connector(sim: &Sim, cfg: NetCfg, script: Vec<ConnectStep>) -> (S
 pub fn draw_h2_opts(sim: &Sim) -> (ServerOpts, ClientOpts) {
     // windows stay below the pipe capacity (>= 256 KiB), see simnet::NetCfg::draw
     let win = |s: &Sim| if s.chance(1, 2) { Some(s.pick(&[64u32, 1024, 65_535, 200_000])) } else { None };
+    // the connection-level window cannot be made smaller than the HTTP/2 default by SETTINGS; asking
+    // hyper/h2 for a smaller target makes h2 account for less than the peer was told and the
+    // connection fails with flow-control errors (seen in simulation; outside these properties)
+    let cwin = |s: &Sim| if s.chance(1, 2) { Some(s.pick(&[65_535u32, 200_000, 1 << 20])) } else { None };
     (
-        ServerOpts { timeout: None, stream_window: win(sim), conn_window: win(sim), max_frame: if sim.chance(1, 3) { Some(sim.pick(&[16_384u32, 20_000, 1 << 20])) } else { None }, concurrency_limit: None },
-        ClientOpts { timeout: None, stream_window: win(sim), conn_window: win(sim), lazy: sim.chance(1, 2) },
+        ServerOpts { timeout: None, stream_window: win(sim), conn_window: cwin(sim), max_frame: if sim.chance(1, 3) { Some(sim.pick(&[16_384u32, 20_000, 1 << 20])) } else { None }, concurrency_limit: None },
+        ClientOpts { timeout: None, stream_window: win(sim), conn_window: cwin(sim), lazy: sim.chance(1, 2) },
     )
 }
